@@ -30,6 +30,11 @@ struct Quar {
 }
 
 thread_local! {
+    /// offset (1..=8) given to the next align-1 allocations: 8 keeps them word aligned, 1..=7
+    /// hands out addresses that are NOT word aligned (legal for align-1 requests; bump / arena
+    /// allocators do it): address independence (C17) and byte-buffer code using `align_to`
+    static MISALIGN: Cell<u8> = const { Cell::new(8) };
+    static QDOUBLE: Cell<u64> = const { Cell::new(0) };
     static LIVE_BLOCKS: Cell<i64> = const { Cell::new(0) };
     static TOTAL_ALLOCS: Cell<u64> = const { Cell::new(0) };
     static QUAR_ON: Cell<bool> = const { Cell::new(false) };
@@ -66,8 +71,28 @@ unsafe fn release(e: QEnt) {
     System.dealloc(p, Layout::from_size_align_unchecked(e.size, e.align));
 }
 
+/// align-1 blocks live inside an 8-aligned block that is 8 bytes larger; the byte in front of
+/// the user pointer holds the offset (1..=8), so `dealloc` finds the real block whatever the
+/// setting was when it was allocated
+#[inline]
+fn shifted(l: &Layout) -> bool {
+    l.align() == 1 && l.size() > 0 && l.size() < (isize::MAX as usize) - 64
+}
+
 unsafe impl GlobalAlloc for VAlloc {
     unsafe fn alloc(&self, l: Layout) -> *mut u8 {
+        if shifted(&l) {
+            let base = System.alloc(Layout::from_size_align_unchecked(l.size() + 8, 8));
+            if base.is_null() {
+                return base;
+            }
+            let off = MISALIGN.try_with(|m| m.get()).unwrap_or(8).clamp(1, 8) as usize;
+            std::ptr::write_bytes(base, 0xAA, fill_len(l.size() + 8));
+            *base.add(off - 1) = off as u8;
+            let _ = LIVE_BLOCKS.try_with(|c| c.set(c.get() + 1));
+            let _ = TOTAL_ALLOCS.try_with(|c| c.set(c.get() + 1));
+            return base.add(off);
+        }
         let p = System.alloc(l);
         if !p.is_null() {
             std::ptr::write_bytes(p, 0xAA, fill_len(l.size()));
@@ -78,6 +103,13 @@ unsafe impl GlobalAlloc for VAlloc {
     }
 
     unsafe fn alloc_zeroed(&self, l: Layout) -> *mut u8 {
+        if shifted(&l) {
+            let p = self.alloc(l);
+            if !p.is_null() {
+                std::ptr::write_bytes(p, 0, l.size());
+            }
+            return p;
+        }
         let p = System.alloc_zeroed(l);
         if !p.is_null() {
             let _ = LIVE_BLOCKS.try_with(|c| c.set(c.get() + 1));
@@ -87,6 +119,33 @@ unsafe impl GlobalAlloc for VAlloc {
     }
 
     unsafe fn dealloc(&self, p: *mut u8, l: Layout) {
+        let (p, l) = if shifted(&l) {
+            let off = *p.sub(1) as usize;
+            if !(1..=8).contains(&off) {
+                // the header is gone: this block was freed before (0xDE) or its header was overwritten
+                let _ = QDOUBLE.try_with(|d| d.set(d.get() + 1));
+                return;
+            }
+            (p.sub(off), Layout::from_size_align_unchecked(l.size() + 8, 8))
+        } else {
+            (p, l)
+        };
+        // a block that is already completely poisoned is being freed a second time: count it and
+        // do not hand it to the system allocator again
+        if l.size() >= 16 && l.size() <= QUAR_MAX {
+            let n = l.size().min(64);
+            let mut all = true;
+            for i in 0..n {
+                if *p.add(i) != 0xDE {
+                    all = false;
+                    break;
+                }
+            }
+            if all && QUAR_ON.try_with(|q| q.get()).unwrap_or(false) {
+                let _ = QDOUBLE.try_with(|d| d.set(d.get() + 1));
+                return;
+            }
+        }
         let _ = LIVE_BLOCKS.try_with(|c| c.set(c.get() - 1));
         std::ptr::write_bytes(p, 0xDE, fill_len(l.size()));
         let on = QUAR_ON.try_with(|q| q.get()).unwrap_or(false);
@@ -147,4 +206,14 @@ pub fn flush_quarantine() -> u64 {
 
 pub fn take_quarantine_damage() -> u64 {
     QDAMAGE.with(|d| d.replace(0))
+}
+
+/// offset of the next align-1 allocations of this thread (8 = word aligned, 1..=7 = not)
+pub fn set_misalign(off: u8) {
+    MISALIGN.with(|m| m.set(if off == 0 { 8 } else { off.clamp(1, 8) }));
+}
+
+/// blocks that were freed twice since the last call (only detected while the quarantine is on)
+pub fn take_double_frees() -> u64 {
+    QDOUBLE.with(|d| d.replace(0))
 }
